@@ -8,4 +8,8 @@ GROUPS = [
     Group("bio/read", "lib_basisio.c", tus=["lib_mpq.c", "lpdata_mpq.c", "allocrus.c"], model=MODEL, defines=["FN_read"], dfcc=False, unwind=14, kind="bounded", bound=BB, namebuf=512,
           flags=["--no-malloc-may-fail"], functions=["ILLlib_readbasis"], props=["C14", "C17"], assumed=[ASM],
           ignore=[(r"strcpy src/dst overlap", "CBMC's strcpy model demands different objects")]),
+    Group("bio/read_any", "lib_basisio.c", tus=["lib_mpq.c", "lpdata_mpq.c", "allocrus.c"], model=MODEL, defines=["FN_read_any"], dfcc=False, unwind=14, kind="bounded", namebuf=512, leak=True,
+          bound="every sequence of at most 4 basis-file records (NAME, XL, XU, UL, LL, ENDATA, unknown key, unknown record type; with or without their column / row fields; names inside or outside the LP, or the objective row's name) for problems of at most 3 columns and 3 rows; loops completely unwound",
+          flags=["--no-malloc-may-fail"], must_fail=["reach_end", "reach_accepted_with_records", "reach_rejected"], functions=["ILLlib_readbasis"], props=["C11", "C17", "C18"], assumed=[ASM],
+          ignore=[(r"strcpy src/dst overlap", "CBMC's strcpy model demands different objects")]),
 ]
